@@ -121,6 +121,12 @@ func (r *runner) visit(toks []int, s string) {
 	if info.printed != s {
 		c.Inc("printed_form_differs_from_input")
 	}
+	if info.noEval {
+		c.Inc("not_evaluated_exponent_with_long_number")
+		if info.noEvalDif {
+			c.Inc("not_evaluated_and_printed_tree_differs")
+		}
+	}
 	if info.errDiffer {
 		c.Inc("both_fail_with_different_messages")
 	}
@@ -326,6 +332,7 @@ func init() {
 			"bounded: token vocabulary and sequence length as stated in the rule; contexts are the 4 stated shapes",
 			"'fails alike' is read as: both evaluations fail (messages are not compared, differing messages are counted)",
 			"values are compared by dynamic type, Render, Format and JSON; anonymous functions by calling them with 0..3 arguments",
+			"an expression containing both `^` and a number literal of more than 3 digits (1111 and longer, formed by adjacent `1` tokens) is printed, re-parsed and its rewrites are compared structurally, but it is not evaluated: such powers take minutes and gigabytes (C04's subject); the evidence counts them",
 			"a template that the scanner does not cut at the expression (string literal ending in an escaped backslash) is text for goflow: its rewrite is compared by evaluation only; the scanner itself is C12's subject",
 			"Evaluator.Template comparisons run on lengths <= 4 (quick) / <= 5 (thorough) of the full vocabulary; longer sequences are checked at expression level and through refactor.Template structurally",
 		},
